@@ -105,4 +105,23 @@ class PathVal(Model):
             return Builtin('Path.' + name, lambda: getattr(fs, name)(self._key()))
         if name == '__fspath__':
             return Builtin('fspath', lambda: self.s)
+        if name == 'stat':
+            # os.stat_result of the ghost file: size / modification time are whatever the file has now - one symbolic
+            # integer per path and per generation of the file (the contract bumps hooks['fs_generation'][path] when it rewrites it)
+            def stat(**kw):
+                import z3
+                gen = I.hooks.setdefault('fs_generation', {}).get(self._key(), 0)
+                tag = f'{self._key()}#{gen}'
+                return StatResult({f: z3.Int(f'stat_{f}({tag})') for f in ('st_mtime_ns', 'st_size', 'st_ino', 'st_mtime', 'st_ctime_ns')})
+            return Builtin('Path.stat', stat)
         raise Unsupported(f'Path.{name}')
+
+
+class StatResult(Model):
+    def __init__(self, fields):
+        self.fields = fields
+
+    def py_getattr(self, I, name):
+        if name in self.fields:
+            return self.fields[name]
+        raise Unsupported('os.stat_result.' + name)
